@@ -160,18 +160,24 @@ Section ThrScale.
   Qed.
 
   (* ------------------------------------------------------------ QuotaSelector *)
-  Theorem qsel_evaluate_rel (quota : Q -> Z -> Q) ae select votes votes' n :
-    (forall v v' m, qsc v v' -> qsc (quota v m) (quota v' m)) -> vrel votes votes' ->
-    qsel_evaluate quota ae select votes' n = qsel_evaluate quota ae select votes n.
+  (* two quota functions related by the scaling: a homogeneous one with itself, a constant quota q with k * q *)
+  Theorem qsel_evaluate_rel2 (quota quota' : Q -> Z -> Q) ae select votes votes' n :
+    (forall v v' m, qsc v v' -> qsc (quota v m) (quota' v' m)) -> vrel votes votes' ->
+    qsel_evaluate quota' ae select votes' n = qsel_evaluate quota ae select votes n.
   Proof.
     intros Hq Hv. unfold qsel_evaluate.
     pose proof (Hq _ _ n (qsumv_rel k _ _ Hv)) as Hquota.
     assert (Hover : vrel (filter (fun cv : C * Q => fulfills ae (snd cv) (quota (qsumv votes) n)) votes)
-                         (filter (fun cv : C * Q => fulfills ae (snd cv) (quota (qsumv votes') n)) votes')).
+                         (filter (fun cv : C * Q => fulfills ae (snd cv) (quota' (qsumv votes') n)) votes')).
     { apply lrel_filter; [|exact Hv]. intros x x' [_ Hx]. apply (fulfills_rel k Hk); assumption. }
     rewrite (lrel_len _ _ _ Hover).
     rewrite (get_n_best_rel Qle_bool Qle_bool (LRScale_proofs.qsc k) (qsc_le k Hk) _ _ (Z.to_nat n) Hover). reflexivity.
   Qed.
+
+  Corollary qsel_evaluate_rel (quota : Q -> Z -> Q) ae select votes votes' n :
+    (forall v v' m, qsc v v' -> qsc (quota v m) (quota v' m)) -> vrel votes votes' ->
+    qsel_evaluate quota ae select votes' n = qsel_evaluate quota ae select votes n.
+  Proof. apply qsel_evaluate_rel2. Qed.
 
   (* ------------------------------------------------------------ Conditioned(threshold, highest averages) *)
   Lemma keep_selected_scale passed votes : keep_selected passed (scaleq k votes) = scaleq k (keep_selected passed votes).
